@@ -56,7 +56,7 @@ static Tissue make_tissue(Rng& g, int max_cells, bool no_epi_pairs = false, bool
     double lmin = pow2 ? std::ldexp(1.0, g.range(-5, -2)) : g.logu(0.03, 0.3), ca = pow2 ? std::ldexp(1.0, g.range(-5, -2)) : g.logu(0.02, 0.3), cr = pow2 ? std::ldexp(1.0, g.range(-5, -2)) : g.logu(0.02, 0.3);
     t.P.min_edge_len_ = lmin; t.P.contact_cutoff_adhesion_ = ca; t.P.contact_cutoff_repulsion_ = cr; t.P.time_step_ = 1; t.P.damping_coefficient_ = 1; t.P.simulation_duration_ = 1; t.P.sampling_period_ = 1;
     auto add = [&](const gen::TriMesh& m, int cls) { t.meshes.push_back(m); t.cls.push_back(cls); };
-    auto blob = [&](double r, double x, double y, double z) { gen::TriMesh m; int k = g.range(0, 3); if (k == 0) m = gen::icosphere(g.range(1, 2)); else if (k == 1) m = gen::box(g.range(1, 4), 1, g.uni(0.6, 1.2), g.uni(0.6, 1.2)); else if (k == 2) m = gen::uvsphere(g.range(5, 12), g.range(4, 8)); else { m = gen::icosphere(2); gen::star_deform(m, g, 0.2); }
+    auto blob = [&](double r, double x, double y, double z) { gen::TriMesh m; int k = g.range(0, 4); if (k == 4) { /* a few hundred nodes, any count, in no particular order: work shared out per block of nodes must reach the last node too */ m = gen::uvsphere(g.range(17, 40), g.range(12, 22)); gen::permute(m, g); } else if (k == 0) m = gen::icosphere(g.range(1, 2)); else if (k == 1) m = gen::box(g.range(1, 4), 1, g.uni(0.6, 1.2), g.uni(0.6, 1.2)); else if (k == 2) m = gen::uvsphere(g.range(5, 12), g.range(4, 8)); else { m = gen::icosphere(2); gen::star_deform(m, g, 0.2); }
         if (g.coin(0.7)) gen::jitter(m, g, 0.04); gen::rotate(m, gen::rot_random(g)); gen::scale(m, r, r, r); gen::translate(m, x, y, z); return m; };
     bool have_epi = false;
     auto rcls = [&]() { double u = g.uni(); int c = u < 0.4 ? 0 : u < 0.55 ? 1 : u < 0.7 ? 2 : u < 0.85 ? 3 : 4; if (no_epi_pairs && c == 0) { if (have_epi) c = 2; have_epi = true; } return c; };
